@@ -10,7 +10,7 @@ Close Scope Q_scope.
 Open Scope string_scope.
 
 Fixpoint var_index (name : string) (l : list (nat * string)) : nat :=
-  match l with [] => 9999 | (i, n) :: r => if String.eqb n name then i else var_index name r end.
+  match l with [] => 4999 | (i, n) :: r => if String.eqb n name then i else var_index name r end.
 Definition var (name : string) : expr := EVar (var_index name gen_varnames).
 
 (* the control / target parameters as the composite factories name them *)
